@@ -37,6 +37,8 @@ var serverAlphabet = []CIn{
 	{Kind: "data"},                                        // 21
 	{Kind: "bad"},                                         // 22
 	{Kind: "eof"},                                         // 23
+	{Kind: "data", Sub: "ping"},                           // 24 a ping request command (servers often auto-reply these)
+	{Kind: "data", Sub: "not"},                            // 25
 }
 
 var serverConfs = []*SConf{
@@ -66,6 +68,11 @@ var serverOracles = []*SOracle{
 		{1, "plain", ip(1), 0, "round:3"}, {1, "plain", ip(1), 1, "round:4"}, {1, "plain", ip(1), 2, "role"},
 		{1, "plain", ip(2), 1, "err"}, {1, "guest", ip(0), 0, "role"}, {1, "key", ip(1), 0, "role"}},
 		Reg: []RegRow{}},
+	{Name: "unset-role-and-both-fields", Auth: []AuthRow{
+		{1, "plain", ip(1), 0, "eround:5"}, {1, "plain", ip(1), 1, "empty"}, {1, "plain", ip(2), 0, "empty"},
+		{1, "plain", ip(2), 1, "role+rt:6"}, {1, "guest", ip(0), 0, "eround:2"}, {1, "guest", ip(0), 1, "role+rt:9"},
+		{1, "key", ip(1), 0, "role+rt:4"}},
+		Reg: []RegRow{{1, "node:7"}}},
 }
 
 type enumOpts struct {
